@@ -3,5 +3,5 @@
 D=$(mktemp -d /tmp/pyvc_patch_XXXX)
 cp -r /repo/black_it "$D/"
 (cd "$D" && patch -s -p1 < "$1") || { echo "PATCH DID NOT APPLY"; rm -rf "$D"; exit 2; }
-cd /verif && PYVC_REPO="$D" ./check "$2" 2>&1 | grep -E "^VIOLATION|^  |^UNDECIDED function|^C[0-9]+:|CHECKER" | cut -c1-330 | head -${3:-8}
+cd /verif && PYVC_REPO="$D" PYVC_OUT="$D" ./check "$2" 2>&1 | grep -E "^VIOLATION|^  |^UNDECIDED function|^C[0-9]+:|CHECKER" | cut -c1-330 | head -${3:-8}
 rm -rf "$D"
